@@ -30,6 +30,9 @@ def H : Hash where
 
 structure State where
   store : Option Store := none
+  cb : Option Breaker := none
+  /-- the breaker case's virtual clock (whole seconds; ops happen at the half second) -/
+  cbNow : Int := 1000000
 
 /-! parsing -/
 
@@ -434,7 +437,45 @@ def stateful (s : Store) (w : List String) : Option (Store × String) :=
     some (s', lenLookup s' now k)
   | _ => none
 
+def fmtSF (b : Breaker) (a : String) : String :=
+  match b.get a with
+  | none => "none"
+  | some sf => s!"count={sf.count} disabled={boolStr sf.disabled}"
+
+def stepCB (st : State) (w : List String) : Option (State × String) :=
+  match w with
+  | ["new"] => some ({ st with cb := some [], cbNow := 1000000 }, "ok")
+  | adv :: op :: rest =>
+    match st.cb, adv.toInt? with
+    | some b, some adv =>
+      let now := st.cbNow + adv
+      let nowMs := now * 1000 + 500
+      let st := { st with cbNow := now }
+      match op, rest with
+      | "can", [a] =>
+        let r := b.canQuery nowMs a
+        some ({ st with cb := some r.1 }, boolStr r.2 ++ " " ++ fmtSF r.1 a)
+      | "fail", [a] =>
+        let b' := b.recordFailure nowMs a
+        some ({ st with cb := some b' }, fmtSF b' a)
+      | "ok", [a] =>
+        let b' := b.recordSuccess a
+        some ({ st with cb := some b' }, fmtSF b' a)
+      | "clean", [] =>
+        let b' := b.cleanupOnce now
+        some ({ st with cb := some b' }, s!"len={b'.length}")
+      | _, _ => none
+    | none, _ => some (st, "nocb")
+    | _, _ => none
+  | _ => none
+
 def step (st : State) (w : List String) : State × String :=
+  match w with
+  | "fail" :: "cb" :: rest =>
+    match stepCB st rest with
+    | some r => r
+    | none => (st, "bad-op")
+  | _ =>
   match stateless w with
   | some o => (st, o)
   | none =>
